@@ -228,7 +228,8 @@ def judge_merge(ctx, asm, ref, ref_noprop, noprop, case, src):
 def one_run(ctx, schema, doc, src, variables, value_fn, ref, ref_noprop, noprop, seed, p_async, policy, early, protocol, merge, base_case, nesting,
             p_iter=0.35):
     case = {**base_case, "schedule_seed": seed, "p_async": p_async, "policy": policy, "early": early}
-    run, sched, hz, obs = run_incremental(schema, doc, variables, value_fn, seed, p_async=p_async, policy=policy, early=early, p_iter=p_iter)
+    run, sched, hz, obs = run_incremental(schema, doc, variables, value_fn, seed, p_async=p_async, policy=policy, early=early, p_iter=p_iter,
+                                          source_burst=[1, 1, 1, 3, 8][seed % 5])
     try:
         run.quiesce()
         ctx.count("runs")
